@@ -38,6 +38,15 @@ def oracle(ctx, stores):
             for fid in n.funcs:
                 if fid >= len(fs) or n.idx not in fs[fid]["nodes"]:
                     why = "node %d lists function %d which does not list it" % (n.idx, fid)
+        # a label written into the interrupt vector (csrrw/csrrwi to CSR 5 of a register holding the label's
+        # address) is a function too
+        for n in ns:
+            if n.kind == "csr" and dump.val(n.body[1]) == "csrrw" and dump.val(n.body[3]) == "5":
+                v = n.ri.get(dump.val(n.body[4]), "")
+                if v.startswith("a:"):
+                    lab = lib.dec(v[2:])
+                    if not any(m.kind == "funcentry" and lab in m.labels for m in ns):
+                        why = "label %r is installed as interrupt handler at node %d but is not a function" % (lab, n.idx)
         for fid, fn in enumerate(fs):
             for i in fn["nodes"]:
                 if fid not in ns[i].funcs:
@@ -63,7 +72,7 @@ def oracle(ctx, stores):
 
 
 def run(ctx):
-    generic.run(ctx, "C11", ["new", "markup", "live"], dict(conforming=40, flow=120, random=40, injected=20),
+    generic.run(ctx, "C11", ["new", "markup", "live"], dict(conforming=40, flow=120, random=40, injected=20, handlers=40),
                 oracle=oracle, what="function discovery")
 
 
